@@ -6,6 +6,7 @@ Case lines (manifest text, names and paths are hex encoded; '-' is the empty str
   m.ext  H S R      Manifest.Extract(srcpath, relocate)
   m.fb   o0,..,on s firstBlock(offsets, start)
   m.esc  N          EscapeName / UnescapeName
+  m.fix  P          fixStreamName (path.Clean) and splitPath on an arbitrary path string
   a.fs   H          Go collection filesystem loaded from the manifest  (driver "a")
   a.pdh  H          PortableDataHash + Collection.SizedDigests
   a.esc  N          manifestEscape / manifestUnescape
@@ -333,6 +334,34 @@ def clean_path(p):
     return b"/".join([b"."] + comps)
 
 
+def go_path_clean(p):
+    """Go path.Clean, from its documentation: collapse slashes, drop '.', resolve inner '..', drop '..' at the root,
+    '' -> '.'"""
+    if p == b"":
+        return b"."
+    rooted = p.startswith(b"/")
+    out = []
+    for c in p.split(b"/"):
+        if c in (b"", b"."):
+            continue
+        if c == b"..":
+            if out and out[-1] != b"..":
+                out.pop()
+            elif not rooted:
+                out.append(c)
+            continue
+        out.append(c)
+    r = b"/".join(out)
+    return (b"/" + r) if rooted else (r or b".")
+
+
+def go_fix_stream_name(p):
+    c = go_path_clean(p)
+    if c.startswith(b"/"):
+        return b"." + c
+    return c if c == b"." else b"./" + c
+
+
 def expected_extract(ref, src, reloc):
     src_c = clean_path(src)
     rel_c = clean_path(reloc)
@@ -455,6 +484,15 @@ def oracle(case, impl):
             return f"unescape of {n!r} gives {unhex(u)!r}, the escape rule (\\ooo = byte value) says {spec_u!r}"
         if any(c <= 0x20 for c in unhex(e)):
             return "escaped name contains a delimiter/control byte"
+        return None
+    if op == "m.fix":
+        n = unhex(f[1])
+        fx, sn, fn = (unhex(x) for x in impl.split(" "))
+        if fx != go_fix_stream_name(n):
+            return f"fixStreamName({n!r}) = {fx!r}, path.Clean's rules give {go_fix_stream_name(n)!r}"
+        i = n.rfind(b"/")
+        if (sn, fn) != ((n[:i], n[i + 1:]) if i >= 0 else (n, b"")):
+            return f"splitPath({n!r}) = {(sn, fn)!r}"
         return None
     if op == "p.esc":
         n = unhex(f[1])
@@ -936,6 +974,10 @@ def generate(rng, tier):
             out.append(f"m.fb {rng.randint(0, 5)} {start}")
             out.append(f"p.fb - {start}")
             out.append(f"p.lr - {start} {rng.randint(0, 3)}")
+    for _ in range(300 if quick else 8000):
+        n = b"".join(rng.choice([b".", b"..", b"/", b"/", b"a", b"b c", b"\\", b"./", b"//", b"x.", b".x", b"",
+                                 bytes([rng.randrange(256)])]) for _ in range(rng.randint(0, 9)))
+        out.append(f"m.fix {hx(n)}")
     for _ in range(nesc):
         r = rng.random()
         if r < 0.4:
